@@ -754,4 +754,128 @@ theorem scanPkg_records_decls {bt : List Builtin} (F : Facts) (v2 : Bool) (hwf :
     obtain ⟨f', v', c'⟩ := addImports_decls u2 p.path (p.imports.mergeSort Str.le)
     exact hr.same a' b' f' v' c'
 
+
+/-! ## the package record in v2, where the scan is interleaved with the visits of the imports -/
+open Gengo.Loader
+
+/-- the universe has a record for `path` that carries the name `nm` -/
+def RecName (u : U) (path nm : Str) : Prop := ∃ r ∈ u.pkgs, r.path = path ∧ r.name = nm
+
+theorem RecName.of_kept {u u' : U} {path nm : Str} (h : RecName u path nm) (hk : PkgsKept u u') : RecName u' path nm := by
+  obtain ⟨r, hr, h1, h2⟩ := h
+  exact ⟨r, hk r hr, h1, h2⟩
+
+theorem package_kept (u : U) (p : Str) : PkgsKept u (u.package p) := (package_side u p).pkgs
+
+/-- `setPkg` keeps paths; the record of `path` is only touched when `q = path`, and then gets (or keeps) the name -/
+theorem RecName.setPkg {u : U} {path nm : Str} (h : RecName u path nm) (q : Str) (f : PkgRec → PkgRec)
+    (hp : ∀ r : PkgRec, (f r).path = r.path)
+    (hn : q = path → ∀ r : PkgRec, (f r).name = nm ∨ (f r).name = r.name) : RecName (u.setPkg q f) path nm := by
+  obtain ⟨r, hr, h1, h2⟩ := h
+  by_cases hq : r.path = q
+  · refine ⟨f r, ?_, (hp r).trans h1, ?_⟩
+    · simp only [U.setPkg, List.mem_map]
+      exact ⟨r, hr, by simp [hq]⟩
+    · rcases hn (hq.symm.trans h1) r with e | e
+      · exact e
+      · exact e.trans h2
+  · refine ⟨r, ?_, h1, h2⟩
+    simp only [U.setPkg, List.mem_map]
+    exact ⟨r, hr, by simp [hq]⟩
+
+theorem RecName.addImports {u : U} {path nm : Str} (h : RecName u path nm) (q : Str) (imps : List Str) :
+    RecName (u.addImports q imps) path nm := by
+  unfold U.addImports
+  have h1 := h.of_kept (package_kept u q)
+  have h2 := h1.of_kept (foldl_package_kept imps (u.package q))
+  exact h2.setPkg q _ (fun _ => rfl) (fun _ _ => .inr rfl)
+
+theorem find_path {w : World} {path : Str} {p : GPkg} (h : w.find path = some p) : p.path = path := by
+  have := List.find?_some h
+  simpa using this
+
+theorem addObjs_recName {bt : List Builtin} (F : Facts) (v2 : Bool) (fuel : Nat) (obs : List GObj) (u u' : U) {path nm : Str}
+    (h : RecName u path nm) (hf : addObjs bt F v2 fuel u obs = some u') : RecName u' path nm :=
+  h.of_kept (addObjs_pkgsKept F v2 fuel obs u u' hf)
+
+/-- a visit keeps the name of every record whose package the world names consistently -/
+theorem visitV2_keeps_recName (w : World) (q nm : Str) (hq : ∀ p', w.find q = some p' → p'.name = nm) :
+    ∀ (n : Nat) (st st' : LState) (path : Str), RecName st.u q nm → visitV2 w n st path = some st' → RecName st'.u q nm := by
+  intro n
+  induction n with
+  | zero => intro st st' path _ h; simp [visitV2] at h
+  | succ n ih =>
+    intro st st' path hr h
+    simp only [visitV2] at h
+    split at h
+    · cases h; exact hr
+    · cases hf : w.find path with
+      | none => simp [hf] at h
+      | some p =>
+        simp only [hf] at h
+        have h1 := hr.of_kept (package_kept st.u path)
+        split at h
+        · cases h; exact h1
+        · have h2 := h1.of_kept (package_kept (st.u.package path) p.path)
+          have h3 : RecName (((st.u.package path).package p.path).setPkg p.path (fun r => { r with name := p.name })) q nm :=
+            h2.setPkg p.path _ (fun _ => rfl) (fun e r => by
+              left
+              have hp := find_path hf
+              have : w.find q = some p := by rw [← e, hp]; exact hf
+              exact hq p this)
+          cases ha : addObjs w.bt w.facts w.v2 w.fuel (((st.u.package path).package p.path).setPkg p.path (fun r => { r with name := p.name })) p.scope with
+          | none => simp [ha] at h
+          | some u3 =>
+            simp only [ha] at h
+            have h4 := addObjs_recName w.facts w.v2 w.fuel p.scope _ u3 h3 ha
+            generalize hst3 : ({ u := u3, requested := st.requested, processed := st.processed ++ [path] } : LState) = st3 at h
+            cases hfold : p.imports.foldl (fun acc i => acc.bind (fun s => visitV2 w n s i)) (some st3) with
+            | none => simp [hfold] at h
+            | some st4 =>
+              simp only [hfold, Option.some.injEq] at h
+              subst h
+              have h5 := foldl_bind_inv (fun s i => visitV2 w n s i) (fun s => RecName s.u q nm)
+                (fun s i s' hs hv => ih s s' i hs hv) p.imports st3 st4 (by subst hst3; exact h4) hfold
+              exact h5.addImports p.path _
+
+/-- **package_recorded_v2**: when `addPkgToUniverse` visits a requested package that has not been processed yet, the
+universe afterwards holds a record with the package's path, its name and its direct imports -/
+theorem visitV2_records (w : World) (n : Nat) (st st' : LState) (path : Str) (p : GPkg)
+    (hfind : w.find path = some p) (hnp : st.processed.contains path = false) (hreq : st.requested.contains path = true)
+    (h : visitV2 w (n + 1) st path = some st') :
+    ∃ r ∈ st'.u.pkgs, r.path = p.path ∧ r.name = p.name ∧ ∀ i ∈ p.imports, i ∈ r.imports := by
+  have hpp := find_path hfind
+  have hq : ∀ p', w.find p.path = some p' → p'.name = p.name := by
+    intro p' hp'
+    rw [hpp, hfind] at hp'; cases hp'; rfl
+  simp only [visitV2, hnp, Bool.false_eq_true, if_false, hfind, hreq, Bool.not_true] at h
+  obtain ⟨r0, hr0, hp0⟩ := package_has (st.u.package path) p.path
+  have h3 : RecName (((st.u.package path).package p.path).setPkg p.path (fun r => { r with name := p.name })) p.path p.name := by
+    refine ⟨{ r0 with name := p.name }, ?_, hp0, rfl⟩
+    simp only [U.setPkg, List.mem_map]
+    exact ⟨r0, hr0, by simp [hp0]⟩
+  cases ha : addObjs w.bt w.facts w.v2 w.fuel (((st.u.package path).package p.path).setPkg p.path (fun r => { r with name := p.name })) p.scope with
+  | none => simp [ha] at h
+  | some u3 =>
+    simp only [ha] at h
+    have h4 := addObjs_recName w.facts w.v2 w.fuel p.scope _ u3 h3 ha
+    generalize hst3 : ({ u := u3, requested := st.requested, processed := st.processed ++ [path] } : LState) = st3 at h
+    cases hfold : p.imports.foldl (fun acc i => acc.bind (fun s => visitV2 w n s i)) (some st3) with
+    | none => simp [hfold] at h
+    | some st4 =>
+      simp only [hfold, Option.some.injEq] at h
+      subst h
+      have h5 := foldl_bind_inv (fun s i => visitV2 w n s i) (fun s => RecName s.u p.path p.name)
+        (fun s i s' hs hv => visitV2_keeps_recName w p.path p.name hq n s s' i hs hv) p.imports st3 st4 (by subst hst3; exact h4) hfold
+      -- `addImports` puts the (sorted) imports into the record
+      obtain ⟨r, hr, e1, e2⟩ := h5
+      unfold U.addImports
+      have k1 := package_kept st4.u p.path r hr
+      have k2 := foldl_package_kept (p.imports.mergeSort Str.le) _ r k1
+      refine ⟨{ r with imports := (p.imports.mergeSort Str.le).foldl (fun acc i => if acc.contains i then acc else acc ++ [i]) r.imports }, ?_, e1, e2, ?_⟩
+      · simp only [U.setPkg, List.mem_map]
+        exact ⟨r, k2, by simp [e1]⟩
+      · intro i hi
+        exact mem_foldl_add _ _ _ (.inr ((List.mergeSort_perm p.imports _).symm.subset hi))
+
 end Gengo.WalkSide
